@@ -75,10 +75,12 @@ def unit_saver(twin=False):
     kinds = ["solution", "pp_assemblage", "exchange", "surface", "gas_phase", "ss_assemblage"]
     short = {"solution": "xsolution_save", "pp_assemblage": "xpp_assemblage_save", "exchange": "xexchange_save", "surface": "xsurface_save", "gas_phase": "xgas_save", "ss_assemblage": "xss_assemblage_save"}
     for K in kinds:
-        ifs = [x for x in body if x.get("kind") == "IfStmt" and text_of(MS, x["inner"][0]) == "save.%s==TRUE" % K]
+        ifs = [x for x in body if x.get("kind") == "IfStmt" and len(x["inner"]) >= 2 and (short[K] + "(") in text_of(MS, x["inner"][1])]      # the block that saves this kind, whatever its condition
         if len(ifs) != 1:
             r.add("%s.block_present" % K, FAILED, "syntactic", 0, "%d blocks" % len(ifs)); continue
         blk = ifs[0]["inner"][1]
+        cnd = text_of(MS, ifs[0]["inner"][0])
+        r.add("%s.saved_exactly_when_a_SAVE_of_that_kind_was_requested" % K, DISCHARGED if cnd in ("save.%s==TRUE" % K, "save.%s" % K, "save.%s!=FALSE" % K, "TRUE==save.%s" % K) else FAILED, "syntactic", 0, cnd, kind="structural")
         stmts = [text_of(MS, x) for x in blk.get("inner", [])]
         import re as _re
         first = "save.n_%s_user" % K
